@@ -190,7 +190,13 @@ impl Lin {
             // absolute slack for quantities in the subnormal range of the scalar type under test
             let csum: f64 = c.col(col).iter().map(|v| v.abs()).sum();
             let slack = smax * (self.n as f64) * self.tiny * (1.0 + smax + self.ut * csum) + (self.n as f64) * self.tiny * self.ut * rn;
-            let bound = (k * self.ut * smax * (bn + smax * cn) + dropped_allow + slack).max(ref_allow);
+            // a forward-stable but not backward-stable method (e.g. explicit pseudo-inverse times
+            // data) leaves a normal-equation residual proportional to the condition number of
+            // the kept part: accept that as well (it coincides with the backward bound for
+            // well-conditioned matrices, where the sensitivity of this check lies)
+            let s_low = if self.maybe_kept == 0 { smax } else { (self.svd.s[self.maybe_kept - 1] - self.delta).max(self.eps).max(f64::MIN_POSITIVE) };
+            let forward_stable = k * self.ut * smax * (smax / s_low) * bn;
+            let bound = (k * self.ut * smax * (bn + smax * cn) + dropped_allow + slack).max(forward_stable).max(ref_allow);
             if !(gn <= bound) {
                 return Err(Fail::new(
                     "c01.normal_equations",
